@@ -223,8 +223,9 @@ fn type_system_sources(thorough: bool) -> Vec<(&'static str, String)> {
         "f: Int g(a: Int): [T!]!",
         "\"field doc\" f(\"arg doc\" a: Int = 1 @d, b: [S!]! = [\"x\"] , c: In = {k: 1, l: [true, null]}): T! @d @e(x: E)",
         "\"\"\"\nblock\nfield doc\n\"\"\" f: [[Int]]",
+        "f(a: Int = null, b: [S!] = null, c: In = null @d, d: Boolean = false, e: Int = 0, g: String = \"\"): Int",
     ];
-    let input_sets = ["a: Int", "a: Int = 3 @d b: [In!] \"doc\" c: String = \"s\"", "a: In = {x: 1, y: {z: [1, 2]}}"];
+    let input_sets = ["a: Int", "a: Int = 3 @d b: [In!] \"doc\" c: String = \"s\"", "a: In = {x: 1, y: {z: [1, 2]}}", "a: Int = null b: [Int!] = null c: In = null d: [In] = [null]"];
     let enum_sets = ["A", "A B C", "\"doc a\" A @d B @d(a: 1) \"\"\"\nblock\ndoc\n\"\"\" C"];
     for de in descriptions() {
         for di in directive_uses() {
@@ -249,7 +250,7 @@ fn type_system_sources(thorough: bool) -> Vec<(&'static str, String)> {
                 v.push(("sdl-input", format!("{de}input In{di} {{ {is} }}")));
             }
         }
-        for args in ["", "(a: Int)", "(a: Int = 1 @d, \"doc\" b: [S!]! = [])"] {
+        for args in ["", "(a: Int)", "(a: Int = 1 @d, \"doc\" b: [S!]! = [])", "(a: Int = null, b: In = null)"] {
             for rep in ["", " repeatable"] {
                 for loc in ["FIELD", "FIELD | QUERY | FRAGMENT_SPREAD", "OBJECT | FIELD_DEFINITION | ARGUMENT_DEFINITION | ENUM_VALUE"] {
                     v.push(("sdl-directive", format!("{de}directive @dd{args}{rep} on {loc}")));
